@@ -77,8 +77,6 @@ Definition i_b2 := core_build i_fs2 g_cf i_old2 g_vers 40 40 g_root.
 
 Lemma i_state1 : cr_state i_b1 = Some i_s1.
 Proof. vm_compute. reflexivity. Qed.
-Lemma i_state2 : exists s2, cr_state i_b2 = Some s2.
-Proof. vm_compute. eexists. reflexivity. Qed.
 
 Lemma g_copy_wf : forall p a k, WfArgs (g_copy p a k).
 Proof. intros p a k. constructor. intros [v|e]; [destruct v|]; repeat constructor. Qed.
@@ -90,17 +88,36 @@ Lemma g_respectsS : RespectsS G.
 Proof. intros f a a' k k' _ _. reflexivity. Qed.
 
 (* all obligations of the two-build chain hold *)
+Lemma chain_ok_cons : forall cf nm Fprev clockprev fs old b rest,
+  Obeys (b_F b) (b_root b) -> WfArgs (b_root b) -> Respects (b_F b) -> RespectsS (b_F b) ->
+  coherent old (b_vers b) Fprev (b_F b) -> cache_tame old (b_vers b) ->
+  (clockprev <= b_clock b)%N -> files_old fs (b_clock b) -> fs_wf fs ->
+  forall s1, cr_state (core_build fs cf old (b_vers b) (b_clock b) (b_nextid b) (b_root b)) = Some s1 ->
+  chain_ok cf nm (b_F b) (b_clock b) (next_fs cf s1) (cache_of_state nm s1) rest ->
+  chain_ok cf nm Fprev clockprev fs old (b :: rest).
+Proof.
+  intros until s1. intros Hs Hrest. cbn [chain_ok]. repeat (split; [assumption|]). rewrite Hs. exact Hrest.
+Qed.
+
+Definition i_s2 : kstate := match cr_state i_b2 with Some s => s | None => i_s1 end.
+
 Lemma i_chain_ok : chain_ok g_cf "b" G 0 i_fs (empty_cache "b" g_vers) [i_step 20; i_step 40].
 Proof.
-  cbn [chain_ok i_step b_root b_vers b_F b_clock b_nextid].
-  split; [exact g_obeys|]. split; [exact g_wfargs|]. split; [exact g_respects|]. split; [exact g_respectsS|].
-  split; [apply coherent_refl|]. split; [apply cache_tameb_sound; vm_compute; reflexivity|].
-  split; [lia|]. split; [apply files_oldb_sound; vm_compute; reflexivity|]. split; [apply fs_wfb_sound; vm_compute; reflexivity|].
-  fold i_b1. rewrite i_state1. fold i_old2 i_fs2.
-  split; [exact g_obeys|]. split; [exact g_wfargs|]. split; [exact g_respects|]. split; [exact g_respectsS|].
-  split; [apply coherent_refl|]. split; [apply cache_tameb_sound; vm_compute; reflexivity|].
-  split; [lia|]. split; [apply files_oldb_sound; vm_compute; reflexivity|]. split; [apply fs_wfb_sound; vm_compute; reflexivity|].
-  fold i_b2. destruct i_state2 as [s2 ->]. exact I.
+  apply (chain_ok_cons g_cf "b" G 0%N i_fs (empty_cache "b" g_vers) (i_step 20) [i_step 40]
+           g_obeys g_wfargs g_respects g_respectsS (coherent_refl _ _ _)) with (s1 := i_s1).
+  - apply cache_tameb_sound. vm_compute. reflexivity.
+  - cbn. lia.
+  - apply files_oldb_sound. vm_compute. reflexivity.
+  - apply fs_wfb_sound. vm_compute. reflexivity.
+  - vm_compute. reflexivity.
+  - apply (chain_ok_cons g_cf "b" G 20%N (next_fs g_cf i_s1) (cache_of_state "b" i_s1) (i_step 40) []
+             g_obeys g_wfargs g_respects g_respectsS (coherent_refl _ _ _)) with (s1 := i_s2).
+    + apply cache_tameb_sound. vm_compute. reflexivity.
+    + cbn. lia.
+    + apply files_oldb_sound. vm_compute. reflexivity.
+    + apply fs_wfb_sound. vm_compute. reflexivity.
+    + vm_compute. reflexivity.
+    + exact I.
 Qed.
 
 (* so both builds are transparent: in particular the second one, which is served from the cache the first one left *)
